@@ -75,7 +75,7 @@ func init() {
 		Components:     compA + "; a third of the codec-identity runs use the real metadb.BoltMetaDB + bbolt on tmpfs",
 		Assumptions:    []string{"pure Encode->Decode equality over all field values is not a simulation question; it is covered only as a by-product"},
 		RequiredProbes: []string{"wrong_codec_refused", "reserved_codec_rejected", "same_codec_reopened", "reads_overlapping_a_write", "append_ge_64KiB_acked"},
-		QuickS:         45, ThoroughS: 600,
+		QuickS:         60, ThoroughS: 600,
 	}
 	clusterRule := "each run = a simulated cluster of 2-4 nodes, each a verifier.NewLogStore over an in-memory reference store behind a seam wrapper (every inner call a yield point; GetLog can return an altered copy), driven by a small model of raft log replication that only generates histories raft could produce: leader appends (checkpoints at tape-chosen places, bootstrap configuration entry at index 1), replication of the leader's stored entries to a follower in batch splits of 1-5, follower lag, leadership change to any node whose log is at least as up to date as a majority's (new leader appends a no-op; followers truncate their conflicting suffix before appending), snapshot install on followers behind the leader's first index, middleware restart (new LogStore over the same inner store), head truncation; truncations wait until no verification of the node is pending (the quantifier's side condition). The verifier goroutines are scheduled by the simulator. Only committed entries (held by a majority) are compacted away and a node with an empty log resumes after its snapshot. Ground truth (what each leader checksummed per checkpoint, what each node stores) is kept by the driver and every delivered VerificationReport is judged against it. A third of the runs inject errors: the k-th inner StoreLogs / DeleteRange / IsCheckpointFn call, or the k-th GetLog / FirstIndex the verifier goroutine or the driver issues, fails before reaching the store; a failed leader append is retried with the same log values (checkpoint metadata already written into them), with fresh copies, or abandoned; a failed call must return the injected error, change nothing and account nothing, a verification whose read failed must report that error and never a checksum mismatch, and later reports are judged as before. An oracle is only reported by the property that owns it (C16 no-false-alarm; C17 detects-divergence, blame-correct; C18 everything else); a foreign oracle that fails ends the run without a verdict. "
 	propSpecs["C16"] = &PropSpec{
